@@ -7,6 +7,7 @@ mod s_enc;
 mod s_cnt;
 mod s_rice;
 mod s_src;
+mod s_cfg;
 
 use std::io::{BufRead, Write};
 
@@ -24,6 +25,7 @@ fn run_line(line: &str) -> String {
         "CNT" => s_cnt::run(&idc, &restc),
         "RICE" => s_rice::run(&idc, &restc),
         "SRC" => s_src::run(&idc, &restc),
+        "CFG" => s_cfg::run(&idc, &restc),
         _ => format!("{} unknown-stream", idc),
     });
     match r { Ok(s) => s, Err(_) => format!("{} panic", id) }
@@ -45,6 +47,7 @@ fn main() {
                 "CNT" => s_cnt::gen(seed, n, &mut out),
                 "RICE" => s_rice::gen(seed, n, &mut out),
                 "SRC" => s_src::gen(seed, n, &mut out),
+                "CFG" => s_cfg::gen(seed, n, &mut out),
                 _ => panic!("unknown stream"),
             }
             print!("{}", out);
